@@ -1222,8 +1222,14 @@ func (rn *runner) doPH(ph tmconsensus.ProposedHeader, coq string) {
 		rn.touched[hr{ph.Header.Height - 1, ph.Header.PrevCommitProof.Round}] = true
 	}
 	ctx, cancel := context.WithTimeout(rn.w.ctx, 5*time.Second)
+	t0 := time.Now()
 	res := rn.m.HandleProposedHeader(ctx, ph)
 	cancel()
+	if d := time.Since(t0); d > 4*time.Second {
+		// the handler came back only because its context expired (or nearly): a peer message kept it busy for seconds
+		rn.stats["handler_slower_than_4s"]++
+		fmt.Fprintf(os.Stderr, "SLOW HandleProposedHeader height=%d round=%d took %v result=%d\n", ph.Header.Height, ph.Round, d, res)
+	}
 	if res == tmconsensus.HandleProposedHeaderAccepted && rn.pendingCrash >= 0 {
 		// the add is asynchronous: wait until the kernel has issued its first store write for it
 		deadline := time.Now().Add(3 * time.Second)
